@@ -6,6 +6,7 @@ import (
 	"regexp"
 	"sort"
 	"strings"
+	"unicode/utf8"
 )
 
 // Tag is one tag pair of a series (key and value are arbitrary byte strings, never
@@ -267,7 +268,11 @@ func genHistory(r *rand.Rand, id int, bloom, compress bool, nPred int) *History 
 			h.Ops = append(h.Ops, Op{Kind: "delete", DelM: v.M, Del: &l}, Op{Kind: "flush"}, Op{Kind: "check", Label: "after-delete", NPred: 12},
 				Op{Kind: "reopen"}, Op{Kind: "check", Label: "after-delete-and-reopen"},
 				Op{Kind: "insert", Items: victims, Path: pick(r, []string{"builder", "mutex", "series"})}, Op{Kind: "flush"},
-				Op{Kind: "check", Label: "after-recreate", NPred: 6})
+				Op{Kind: "check", Label: "after-recreate", NPred: 6},
+				// the new incarnation must be as stable as any other series
+				Op{Kind: "clear"}, Op{Kind: "insert", Items: victims, Path: "builder"}, Op{Kind: "reopen"},
+				Op{Kind: "insert", Items: victims, Path: pick(r, []string{"builder", "mutex", "series"})}, Op{Kind: "flush"},
+				Op{Kind: "check", Label: "after-recreate-and-reopen", NPred: 6})
 		} else {
 			h.WithDel = false
 		}
@@ -393,11 +398,19 @@ var absentStrings = []string{"nope", "webb", "we-", "x", "WEB ", "dbx", "\x01\x0
 
 // genRegex returns (pattern, shape name).
 func genRegex(r *rand.Rand, vals []string) (string, string) {
+	// pattern pieces come from valid UTF-8 values only: Go's regexp reads an invalid byte of
+	// the subject as U+FFFD, which a literal U+FFFD in the pattern would then match
+	var valid []string
+	for _, v := range vals {
+		if utf8.ValidString(v) {
+			valid = append(valid, v)
+		}
+	}
 	val := func() string {
-		if len(vals) == 0 || r.IntN(8) == 0 {
+		if len(valid) == 0 || r.IntN(8) == 0 {
 			return pick(r, absentStrings)
 		}
-		return pick(r, vals)
+		return pick(r, valid)
 	}
 	q := regexp.QuoteMeta
 	v1, v2 := val(), val()
